@@ -306,6 +306,7 @@ func c07Script(r *gen.Rng, o *out.W) {
 	}
 	slots := map[packet.ID]*slot{1: {}, 2: {}}
 	late := 0
+	unackedLate := 0
 	steps := 10 + r.Intn(25)
 	for i := 0; i < steps; i++ {
 		if !w.alive(c) {
@@ -323,7 +324,14 @@ func c07Script(r *gen.Rng, o *out.W) {
 			}
 		}
 		w.peers[c].acks = nil
-		switch r.Intn(9) {
+		k := r.Intn(9)
+		if late > 0 && unackedLate >= 7 && k <= 2 {
+			k = 8 // the broker has 10 publish tokens: with a backend that withholds its acknowledgements stay below
+		}
+		if k <= 2 && late > 0 {
+			unackedLate++
+		}
+		switch k {
 		case 0, 1, 2:
 			if !sl.open {
 				w.seq++
@@ -374,6 +382,7 @@ func c07Script(r *gen.Rng, o *out.W) {
 			w.AckMode("sync")
 			w.AckRelease()
 			late = 0
+			unackedLate = 0
 		}
 	}
 	w.AckMode("sync")
